@@ -172,6 +172,40 @@ Proof.
 Qed.
 Print Assumptions C01_partition.
 
+From Coq Require Import Reals.
+From T4V Require Import C01.ProofsPoints.
+
+(* THE PROPERTY for points of R^3.  Surfaces are ANY family of real functions
+   fval : id -> point -> R (PLUS s = {fval s > 0}, MINUS s = {fval s < 0}); the two
+   helper planes are x - 1 and x + 1 (PLANEX 1, PLANEX -1 as construct_volume_t4
+   inserts them); surfaces merged by the de-duplication are the same function.
+   Membership of a point in a written volume is Pin (EQUA / UNION / INTE read
+   directly on the table, no Booleans; ProofsPoints.v shows Pin = Vden at the sense
+   assignment of the point).  For every point p off every surface: if MCNP cell c
+   owns p and no other converted cell contains p, then p lies in exactly one
+   written non-FICTIVE volume, numbered c, when c has non-zero importance, and in
+   none otherwise.  The consistency of the helper planes and the equality of
+   senses of merged surfaces are now PROVED (sigma_consistent, sigma_respects),
+   not assumed. *)
+Theorem C01_partition_points :
+  forall (fval : Z -> point -> R) (u0 u1 : Z),
+  (forall p, fval u0 p = (px p - 1)%R) -> (forall p, fval u1 p = (px p + 1)%R) ->
+  forall (cden : point -> Z -> bool) cells matching fuel todo cnt0 s' rn skipped d' p c,
+  0 < u0 -> 0 < u1 -> off_surfaces fval p ->
+  (forall c g orig, lookup c cells = Some (g, orig) ->
+     leaves_ok (msurf_ok matching) g /\
+     cden p c = mden (sigma_of fval p) (cden p) matching g) ->
+  NoDup todo -> (forall k, In k todo -> k <= cnt0) ->
+  convert_cells fuel cells matching u0 u1 todo (mkSt cnt0 [] [] []) = Ok s' ->
+  prune u0 u1 rn (vols s') = Ok d' ->
+  (forall r, rn = Some r -> merged_equal fval r) ->
+  (forall k, In k skipped -> k <= cnt0 /\ ~ In k todo) ->
+  cden p c = true -> (forall c', In c' todo -> cden p c' = true -> c' = c) ->
+  (In c todo -> forall k, pt_in fval (written skipped d') p k <-> k = c) /\
+  (~ In c todo -> forall k, ~ pt_in fval (written skipped d') p k).
+Proof. intros fval u0 u1 Hh0 Hh1. exact (partition_points fval u0 u1 Hh0 Hh1). Qed.
+Print Assumptions C01_partition_points.
+
 (* non-vacuity: five cells (three converted, one of importance 0, one filler kept
    by reference), a union without pure-intersection member, a surface of
    reversed side; every hypothesis of C01_cells / C01_partition holds, with a
